@@ -21,7 +21,7 @@ EXTENDS Integers, FiniteSets, Sequences, TLC
 
 \* ---- request features: value "ok" (or a benign variant starting with "ok") is RFC-conformant
 ReqDom ==
-  [ line    |-> {"ok", "post", "http10", "two-parts", "fragment"},
+  [ line    |-> {"ok", "post", "http10", "two-parts", "fragment", "badversion"},     \* "HTTP/1.x", "HTTP/1.1junk", "HTTP/1.1.1": no HTTP version
     host    |-> {"ok", "missing", "dup", "badport"},
     upgrade |-> {"ok", "ok-mixedcase", "ok-in-list", "missing", "other", "superstring"},      \* "websocket2", "xwebsocket": not the token
     conn    |-> {"ok", "ok-in-list", "missing", "other"},
